@@ -401,9 +401,13 @@ pub fn tile_to_world(tile_x: u32, tile_y: u32) -> (f32, f32) {
 pub fn world_to_tile(world_x: f32, world_y: f32) -> (u32, u32) {
     const MAP_SIZE: f32 = 533.333_3;
     const MAP_OFFSET: f32 = 32.0 * MAP_SIZE;
+    // The corner returned by `tile_to_world` lands a few ULPs short of the grid line in
+    // f32, so nudge by a small fraction of a tile before truncating to keep the two
+    // functions inverse on all 64x64 tiles.
+    const TILE_EPSILON: f32 = 1.0e-4;
 
-    let tile_x = ((MAP_OFFSET - world_y) / MAP_SIZE) as u32;
-    let tile_y = ((MAP_OFFSET - world_x) / MAP_SIZE) as u32;
+    let tile_x = ((MAP_OFFSET - world_y) / MAP_SIZE + TILE_EPSILON) as u32;
+    let tile_y = ((MAP_OFFSET - world_x) / MAP_SIZE + TILE_EPSILON) as u32;
 
     (tile_x.min(63), tile_y.min(63))
 }
